@@ -98,6 +98,14 @@ func NewMeta(sctx *context.StateCtx, stateDB kvdb.Database) (*Meta, error) {
 	return obj, nil
 }
 
+// ResetMetaTmp drops the pending changes of the chain-governed parameters (the batch that carried
+// them was not written)
+func (t *Meta) ResetMetaTmp() {
+	t.MutexMeta.Lock()
+	defer t.MutexMeta.Unlock()
+	t.MetaTmp = proto.Clone(t.Meta).(*pb.UtxoMeta)
+}
+
 // GetNewAccountResourceAmount get account for creating an account
 func (t *Meta) GetNewAccountResourceAmount() int64 {
 	t.MutexMeta.Lock()
